@@ -496,11 +496,18 @@ namespace hgraph
                                 TSDDataMutationView *error_mutation,
                                 DateTime evaluation_time)
         {
+            // Best-effort, like graph stop: a child whose stop throws must not
+            // keep the remaining keyed children from stopping. The first
+            // failure is reported once every child has had its attempt.
+            FirstExceptionRecorder failures;
             for (std::size_t slot = 0; slot < storage.entries.slot_capacity(); ++slot)
             {
-                remove_entry_at_slot(view, context, storage, output_mutation, error_mutation,
-                                     slot, evaluation_time);
+                failures.capture([&] {
+                    remove_entry_at_slot(view, context, storage, output_mutation, error_mutation,
+                                         slot, evaluation_time);
+                });
             }
+            failures.rethrow_if_any();
         }
 
         void create_entry_at_slot(const NodeView &view, const MapNodeContext &context, MapNodeStorage &storage,
@@ -1131,8 +1138,11 @@ namespace hgraph
             // Graph shutdown is not a logical key removal and must not
             // publish erases. The terminal output may already have been
             // detached by its owning service or parent graph.
-            remove_all_entries(view, context, storage, nullptr, nullptr,
-                               evaluation_time);
+            FirstExceptionRecorder failures;
+            failures.capture([&] {
+                remove_all_entries(view, context, storage, nullptr, nullptr,
+                                   evaluation_time);
+            });
             storage.unsubscribe_keys_noexcept();
             storage.primed = false;
             storage.refresh_all_bindings = false;
@@ -1142,6 +1152,7 @@ namespace hgraph
             storage.evaluation_slots.clear();
             storage.resume_position_plus_one = 0;
             storage.child_schedule_queue.clear();
+            failures.rethrow_if_any();
         }
 
         void validate_map_node_spec(const NodeTypeMetaData &meta, const MapNodeSpec &spec)
